@@ -307,6 +307,30 @@ class Sut(object):
                 self.flags.add('write')
                 if len(self.real) > 1:
                     self.flags.add('write-after-copy')
+        elif k == 'query_from_segment':
+            # the four queries asked of a SEGMENT node, through '../': they resolve from the segment's loop and must agree
+            msegs = [c for c in mnode.children if c.kind == 'seg']
+            rsegs = [c for c in rnode.children if c.type == 'seg']
+            if not msegs or len(msegs) != len(rsegs):
+                return
+            j = op['child'] % len(msegs)
+            rs = rsegs[j]
+            exp = m_select(mnode, loops, seg, qual)
+            p2 = '../' + '/'.join([x for x in (path_loops, last) if x])
+            try:
+                ex = rs.exists(p2)
+                ct = rs.count(p2)
+                fi = rs.first(p2)
+                se = list(rs.select(p2))
+            except Exception as e:
+                if not exp:
+                    return
+                raise Violation('query-raises', 'from segment %s, path %r: %s' % (msegs[j].id, p2, core.exc_detail(e)))
+            if not (ex == (ct > 0) == (fi is not None) == (len(se) > 0)) or ct != len(se):
+                raise Violation('query-inconsistent', 'from segment %s, path %r: exists=%r count=%r first=%r len(select)=%d' % (msegs[j].id, p2, ex, ct, fi is not None, len(se)))
+            if ct != len(exp):
+                raise Violation('query-count', 'from segment %s, path %r: count %d, mirror %d' % (msegs[j].id, p2, ct, len(exp)))
+            self.flags.add('query-from-segment')
         elif k == 'query':
             exp = m_select(mbase, loops, seg, qual)
             try:
@@ -712,6 +736,13 @@ def make_machine(text, fname, loop_id, which, gen_seed):
             root = self.sut.model[t % len(self.sut.model)]
             ls = [(root, [])] + [x for x in self._all(t, 'loop') if _is_first_path(root, x)]
             m, loops = ls[i % len(ls)]
+            if m.children and m.children[0].kind == 'seg' and j % 5 == 0 and any(c.kind == 'seg' for c in m.children[1:]):
+                # the loop's own first segment goes and comes back: it belongs in front of everything that is left
+                a = m.children[0]
+                txt = seg_text(a)
+                self.sut.apply(dict(op='delete_node', t=t, loops=loops, seg=a.id, qual=None))
+                self.sut.apply(dict(op='add_segment', t=t, start=loops, text=txt))
+                return
             victims = [c for c in m.children[1:]]
             if not victims:
                 return
@@ -722,6 +753,20 @@ def make_machine(text, fname, loop_id, which, gen_seed):
             else:
                 self.sut.apply(dict(op='delete_node', t=t, loops=loops + [v.id], seg=None))
             self.add(i=0, t=t, k=k, s=s, asloop=False, near=True)
+
+        @rule(i=st.integers(0, 10 ** 6), t=st.integers(0, 1), j=st.integers(0, 10 ** 6), q=st.integers(0, 10 ** 6))
+        def query_from_segment(self, i, t, j, q):
+            root = self.sut.model[t % len(self.sut.model)]
+            ls = [(root, [])] + [x for x in self._all(t, 'loop') if _is_first_path(root, x)]
+            m, loops = ls[i % len(ls)]
+            kids = [c for c in m.children if c.kind in ('seg', 'loop')]
+            if not kids:
+                return
+            c = kids[q % len(kids)]
+            if c.kind == 'seg':
+                self.sut.apply(dict(op='query_from_segment', t=t, start=loops, child=j, loops=[], seg=c.id, qual=None))
+            else:
+                self.sut.apply(dict(op='query_from_segment', t=t, start=loops, child=j, loops=[c.id], seg=None))
 
         @rule(i=st.integers(0, 10 ** 6), t=st.integers(0, 1), j=st.integers(0, 10 ** 6), foreign=st.sampled_from([False, False, False, True]))
         def add_node(self, i, t, j, foreign):
